@@ -4,17 +4,17 @@
    known q h = bits [0,8q] and [57,63] of h = what a bucket keeps next to an element of class q. *)
 From Coq Require Import ZArith List.
 From MomoCommon Require Import GenPrelude.
-From C12 Require Gen_Base Gen_O2 Gen_P4 Gen_One Known P4_Model P4_Slot P4_Bucket O2_Slot Chain.
+From C12 Require Gen_Base Gen_O2 Gen_O2MP Gen_P4 Gen_One Known P4_Model P4_Slot P4_Bucket O2_Slot Chain O2_Bucket MP_Open2N2 TableO2 TableO2_Proofs.
 Import ListNotations.
 Local Open Scope Z_scope.
 
-(* LimP4, reconstruct_exact: for EVERY 64-bit hash h, every table size 2^L (L <= 57), every displacement `probe`,
+(* LimP4, reconstruct_exact: for EVERY 64-bit hash h, every table size 2^L (L <= 63; for L >= 58 the known bits are all of h), every displacement `probe`,
    every slot idx and every hashCount <= 8: if the slot holds what AddCrt stored for (h, L, probe) and the element sits
    `probe` steps after its start bucket, then BucketLimP4::GetHashCodePart returns either the full getter's value
    or exactly the known bits of h. *)
 Theorem C12_limp4_reconstruct_exact :
   forall H s full bidx L newL items idx h probe,
-    0 <= idx -> idx < H <= 8 -> 0 <= h < 2 ^ 64 -> 0 <= L <= 57 -> 0 <= newL <= 63 -> 0 <= probe ->
+    0 <= idx -> idx < H <= 8 -> 0 <= h < 2 ^ 64 -> 0 <= L <= 63 -> 0 <= newL <= 63 -> 0 <= probe ->
     s (H - 1 - idx) = P4_Slot.p4_byte h L probe -> s idx = Gen_P4.pvCalcShortHash h ->
     bidx = (h mod 2 ^ L + probe) mod 2 ^ L ->
     Gen_P4.GetHashCodePart H s full bidx L newL items idx =
@@ -35,7 +35,7 @@ Print Assumptions C12_limp4_setHashProbe_stores_byte.
    really grows (L < newL). *)
 Theorem C12_open2n2_reconstruct_exact :
   forall st sh hp full bidx L newL idx h probe,
-    0 <= h < 2 ^ 64 -> 0 <= L <= 57 -> L < newL <= 63 -> 0 <= probe ->
+    0 <= h < 2 ^ 64 -> 0 <= L <= 63 -> L < newL <= 63 -> 0 <= probe ->
     hp idx = O2_Slot.o2_byte h L probe -> sh idx = Gen_O2.pvCalcShortHash h ->
     bidx = (h mod 2 ^ L + O2_Slot.tri probe) mod 2 ^ L ->
     Gen_O2.GetHashCodePart st sh hp full bidx L newL idx =
@@ -81,7 +81,7 @@ Proof. exact P4_Slot.p4_short_known. Qed.
 Print Assumptions C12_limp4_short_hash_depends_on_known.
 
 Theorem C12_limp4_hash_probe_depends_on_known :
-  forall q x L probe, Known.qof L = q -> 0 <= L <= 57 -> 0 <= probe ->
+  forall q x L probe, Known.qof L = q -> 0 <= L <= 63 -> 0 <= probe ->
     P4_Slot.p4_byte (Known.known q x) L probe = P4_Slot.p4_byte x L probe.
 Proof. exact P4_Slot.p4_byte_known. Qed.
 Print Assumptions C12_limp4_hash_probe_depends_on_known.
@@ -94,7 +94,7 @@ Print Assumptions C12_open2n2_short_hash_depends_on_known.
 (* Open2N2 packs 8 hash bits when the probe shift is 0 (L = 1 mod 8); those reach one bit beyond the known bits, so the
    byte computed from a reconstructed code may differ there -- and is never used: see the chain theorem. *)
 Theorem C12_open2n2_hash_probe_depends_on_known :
-  forall q x L probe, Known.qof L = q -> (L + 7) mod 8 <> 0 -> 0 <= L <= 57 -> 0 <= probe ->
+  forall q x L probe, Known.qof L = q -> (L + 7) mod 8 <> 0 -> 0 <= L <= 63 -> 0 <= probe ->
     O2_Slot.o2_byte (Known.known q x) L probe = O2_Slot.o2_byte x L probe.
 Proof. exact O2_Slot.o2_byte_known. Qed.
 Print Assumptions C12_open2n2_hash_probe_depends_on_known.
@@ -129,12 +129,12 @@ Proof. exact Chain.known_insufficient_across_classes. Qed.
 Print Assumptions C12_known_bits_insufficient_across_classes.
 
 (* chain_placement_equiv, LimP4: start from an element placed from its true hash h; along ANY chain of strictly growing
-   table sizes (<= 2^57), any displacements, any slot situation (own hash-probe byte / empty marker / another element's
+   table sizes (<= 2^63), any displacements, any slot situation (own hash-probe byte / empty marker / another element's
    short hash), re-placing from GetHashCodePart's answer yields at every step exactly the state a full rehash yields:
    same bucket, same short hash, same hash-probe byte. *)
 Theorem C12_limp4_chain_placement_equiv :
   forall H idx h, 0 <= idx -> idx < H - 1 - idx -> H <= 8 -> 0 <= h < 2 ^ 64 ->
-  forall steps L probe junk, 0 <= L <= 57 -> 0 <= probe -> Chain.junk_ok junk -> Chain.steps_ok L steps ->
+  forall steps L probe junk, 0 <= L <= 63 -> 0 <= probe -> Chain.junk_ok junk -> Chain.steps_ok L steps ->
     Chain.p4_chain_reuse H idx h (Chain.p4_mk h L probe junk) steps = Chain.p4_chain_rehash h (Chain.p4_mk h L probe junk) steps.
 Proof. exact Chain.p4_chain_placement_equiv. Qed.
 Print Assumptions C12_limp4_chain_placement_equiv.
@@ -144,7 +144,7 @@ Print Assumptions C12_limp4_chain_placement_equiv.
    L = 1 mod 8, where it can never be read back because every later growth leaves the class). *)
 Theorem C12_open2n2_chain_placement_equiv :
   forall idx h, 0 <= h < 2 ^ 64 ->
-  forall steps e L probe, 0 <= L <= 57 -> 0 <= probe -> Chain.o2_eqv e (Chain.o2_mk h L probe) -> Chain.o2_steps_ok L steps ->
+  forall steps e L probe, 0 <= L <= 63 -> 0 <= probe -> Chain.o2_eqv e (Chain.o2_mk h L probe) -> Chain.o2_steps_ok L steps ->
     exists l, Chain.o2_chain_reuse idx h e steps = Ok l /\
       Forall2 Chain.o2_eqv l (Chain.o2_chain_rehash h (Chain.o2_mk h L probe) steps).
 Proof. exact Chain.o2_chain_placement_equiv. Qed.
@@ -182,7 +182,7 @@ Print Assumptions C12_limp4_count_from_metadata.
    ps i) GetHashCodePart returns the full getter's value or exactly the known bits of that element's own hash -- never
    bits of a neighbour, never a stale byte left behind by a removal. *)
 Theorem C12_limp4_bucket_reconstruct_exact :
-  forall H mm L s c hs ps i full bidx newL items, 4 <= H <= 8 -> 0 <= L <= 57 -> 0 <= newL <= 63 ->
+  forall H mm L s c hs ps i full bidx newL items, 4 <= H <= 8 -> 0 <= L <= 63 -> 0 <= newL <= 63 ->
     P4_Bucket.p4_reach H mm L s c hs ps -> 0 <= i < c -> bidx = (hs i mod 2 ^ L + ps i) mod 2 ^ L ->
     Gen_P4.GetHashCodePart H s full bidx L newL items i = full \/
     (Gen_P4.GetHashCodePart H s full bidx L newL items i = Known.known (Known.qof L) (hs i) /\ Known.qof L = Known.qof newL).
@@ -192,15 +192,107 @@ Print Assumptions C12_limp4_bucket_reconstruct_exact.
 (* non-vacuity: concrete 64-bit hashes for which the reconstruction path (not the full getter) is taken and the known
    bits differ from the hash, so the theorems above are not about an empty set of situations. *)
 Theorem C12_limp4_nonvacuous :
-  exists h L newL probe, 0 <= h < 2 ^ 64 /\ 0 <= L <= 57 /\ L < newL <= 57 /\ 0 <= probe /\
+  exists h L newL probe, 0 <= h < 2 ^ 64 /\ 0 <= L <= 63 /\ L < newL <= 63 /\ 0 <= probe /\
     P4_Slot.p4_full_used (P4_Slot.p4_byte h L probe) L newL = false /\ Known.known (Known.qof L) h <> h /\
     Chain.p4_code 4 0 h (Chain.p4_mk h L probe None) newL = Known.known (Known.qof L) h.
 Proof. exact Chain.p4_nonvacuous. Qed.
 Print Assumptions C12_limp4_nonvacuous.
 
 Theorem C12_open2n2_nonvacuous :
-  exists h L newL probe, 0 <= h < 2 ^ 64 /\ 0 <= L <= 57 /\ L < newL <= 57 /\ 0 <= probe /\
+  exists h L newL probe, 0 <= h < 2 ^ 64 /\ 0 <= L <= 63 /\ L < newL <= 63 /\ 0 <= probe /\
     O2_Slot.o2_full_used (O2_Slot.o2_byte h L probe) L newL = false /\ Known.known (Known.qof L) h <> h /\
     Chain.o2_code 2 h (Chain.o2_mk h L probe) newL = Ok (Known.known (Known.qof L) h).
 Proof. exact Chain.o2_nonvacuous. Qed.
 Print Assumptions C12_open2n2_nonvacuous.
+
+(* ---------------------------------------------------------------------------------------------------------------
+   Table level (TableO2.v: hand L1 model of HashSet::pvAddNogrow / pvRelocateItems over the generated AddCrt, Remove,
+   GetHashCodePart, IsFull, GetNextBucketIndex, GetStartBucketIndex, UpdateMaxProbe; run against the real HashSet). *)
+
+(* one iteration of pvRelocateItems' inner loop on a table of 2^L Open2N2 buckets (Tinv: every element sits on the probe
+   path of the home bucket of its TRUE hash within the max-probe bound recorded there, with its true short hash and live
+   hash-probe byte): no assertion fails, the element lands in the new table again satisfying Tinv for 2^newL buckets. *)
+Theorem C12_open2n2_relocate_item_keeps_true_hash_path :
+  forall hash, (forall k, 0 <= hash k < 2 ^ 64) ->
+  forall L newL told tnew i, 0 <= L -> L < newL <= 63 -> TableO2_Proofs.Tinv hash L told -> TableO2_Proofs.Tinv hash newL tnew ->
+    0 <= i < 2 ^ L -> 0 < TableO2.cnt (told i) ->
+    match TableO2.relocate_item hash told tnew L newL i with
+    | Ok (told', tnew') =>
+        TableO2_Proofs.Tinv hash L told' /\ TableO2_Proofs.Tinv hash newL tnew' /\
+        TableO2.cnt (told' i) = TableO2.cnt (told i) - 1 /\ (forall j, j <> i -> told' j = told j) /\
+        (forall k, TableO2_Proofs.Present L told k -> TableO2_Proofs.Present L told' k \/ TableO2_Proofs.Present newL tnew' k) /\
+        (forall k, TableO2_Proofs.Present newL tnew k -> TableO2_Proofs.Present newL tnew' k)
+    | Exn => True
+    | _ => False
+    end.
+Proof. exact TableO2_Proofs.relocate_item_spec. Qed.
+Print Assumptions C12_open2n2_relocate_item_keeps_true_hash_path.
+
+(* element_found_after_growth: migrate EVERY element of a table of 2^L buckets into a fresh table of 2^newL buckets with
+   the codes GetHashCodePart reconstructs.  No MOMO_ASSERT fails, no loop runs out of fuel, and every key of the old table
+   is Found in the new one: on the probe path of the home bucket computed from its TRUE hash, at a probe <= the bound
+   recorded in that home bucket, in a slot whose short hash is its true short hash -- exactly what pvFind examines. *)
+Theorem C12_open2n2_element_found_after_growth :
+  forall hash, (forall k, 0 <= hash k < 2 ^ 64) ->
+  forall L newL told, 0 <= L -> L < newL <= 63 -> TableO2_Proofs.Tinv hash L told ->
+    match TableO2.migrate hash told L newL with
+    | Ok (_, tnew) => TableO2_Proofs.Tinv hash newL tnew /\
+                      (forall k, TableO2_Proofs.Present L told k -> TableO2_Proofs.Found hash newL tnew k)
+    | Exn => True
+    | _ => False
+    end.
+Proof. exact TableO2_Proofs.migrate_found. Qed.
+Print Assumptions C12_open2n2_element_found_after_growth.
+
+(* the hypothesis Tinv is what HashSet establishes: inserting keys by their full hash (pvAddNogrow) into the empty table *)
+Theorem C12_open2n2_insert_establishes_table_invariant :
+  forall hash, (forall k, 0 <= hash k < 2 ^ 64) ->
+  forall L, 0 <= L <= 63 -> forall keys t, TableO2_Proofs.Tinv hash L t ->
+    match TableO2.insert_all hash t L keys with
+    | Ok t' => TableO2_Proofs.Tinv hash L t' /\ (forall k, TableO2_Proofs.Present L t k -> TableO2_Proofs.Present L t' k) /\
+               (forall k, In k keys -> TableO2_Proofs.Present L t' k)
+    | Exn => True
+    | _ => False
+    end.
+Proof. exact TableO2_Proofs.insert_all_inv. Qed.
+Print Assumptions C12_open2n2_insert_establishes_table_invariant.
+
+Theorem C12_open2n2_empty_table_invariant : forall hash L, TableO2_Proofs.Tinv hash L TableO2.empty_table.
+Proof. exact TableO2_Proofs.empty_inv. Qed.
+Print Assumptions C12_open2n2_empty_table_invariant.
+
+Theorem C12_open2n2_table_nonvacuous :
+  match TableO2.insert_all TableO2_Proofs.demo_hash TableO2.empty_table 2 [1; 2; 3; 4; 5; 6; 7; 8] with
+  | Ok t => match TableO2.migrate TableO2_Proofs.demo_hash t 2 5 with Ok _ => true | _ => false end
+  | _ => false
+  end = true.
+Proof. exact TableO2_Proofs.table_nonvacuous. Qed.
+Print Assumptions C12_open2n2_table_nonvacuous.
+
+(* bucket_meta_inv, Open2N2: after ANY history of the generated AddCrt / Remove (and max-probe updates, which leave the
+   count bits alone) every live slot holds exactly the (short hash, hash-probe byte) packing of the code and displacement
+   its element was inserted with; free slots hold the empty short hash. *)
+Theorem C12_open2n2_bucket_meta_inv :
+  forall L st sh hp hs ps, 0 <= L <= 63 -> O2_Bucket.o2_reach L st sh hp hs ps -> O2_Bucket.o2_inv L st sh hp hs ps.
+Proof. exact O2_Bucket.o2_reach_inv. Qed.
+Print Assumptions C12_open2n2_bucket_meta_inv.
+
+Theorem C12_open2n2_bucket_reconstruct_exact :
+  forall L st sh hp hs ps i full bidx newL, 0 <= L <= 63 -> L < newL <= 63 ->
+    O2_Bucket.o2_reach L st sh hp hs ps -> 3 - O2_Bucket.o2cnt st <= i <= 2 ->
+    bidx = (hs i mod 2 ^ L + O2_Slot.tri (ps i)) mod 2 ^ L ->
+    Gen_O2.GetHashCodePart st sh hp full bidx L newL i = Ok full \/
+    (Gen_O2.GetHashCodePart st sh hp full bidx L newL i = Ok (Known.known (Known.qof L) (hs i)) /\ Known.qof L = Known.qof newL).
+Proof. exact O2_Bucket.o2_bucket_reconstruct. Qed.
+Print Assumptions C12_open2n2_bucket_reconstruct_exact.
+
+(* BucketOne, whole bucket: after ANY history of AddCrt / Remove the bucket is either full with the state of its element's
+   hash (GetHashCodePart = low 63 bits, full getter never called) or not full (state 0 = never used, 2 = was used). *)
+Theorem C12_one_bucket_state_machine :
+  forall st o, O2_Bucket.one_reach st o ->
+    match o with
+    | Some h => Gen_One.IsFull st = true /\ forall full it, Gen_One.GetHashCodePart st full it it = Ok (h mod 2 ^ 63)
+    | None => Gen_One.IsFull st = false /\ (st = 0 \/ st = 2)
+    end.
+Proof. exact O2_Bucket.one_reach_inv. Qed.
+Print Assumptions C12_one_bucket_state_machine.
